@@ -411,8 +411,19 @@ impl<'a> Checker<'a> {
                         }
                     } else if obs.files.len() == 1 {
                         self.out.count("vac:extended_reupload_sessions", 1);
-                        if m.new_bytes as u64 != fresh_bytes_one_file {
-                            self.viol("C11/new-bytes-not-only-fresh", format!("session {si}: new_bytes = {} but the fresh chunks amount to {fresh_bytes_one_file}", m.new_bytes), scn, si);
+                        // every fresh chunk is stored at least once; a fresh chunk that occurs twice in the file may be
+                        // stored twice (when a xorb is cut between the occurrences inside one block the second one is
+                        // found neither in the pending data nor, yet, in the shards) - but no chunk an earlier session stored
+                        if (m.new_bytes as u64) < fresh_bytes_one_file || (m.new_bytes as u64) > fresh_occurrence_bytes {
+                            self.viol(
+                                "C11/new-bytes-not-only-fresh",
+                                format!("session {si}: new_bytes = {} but the fresh chunks amount to {fresh_bytes_one_file} (each once) .. {fresh_occurrence_bytes} (every occurrence)", m.new_bytes),
+                                scn,
+                                si,
+                            );
+                        }
+                        if fresh_occurrence_bytes != fresh_bytes_one_file {
+                            self.out.count("info:extended_reuploads_with_a_repeated_fresh_chunk", 1);
                         }
                     }
                 } else if info_ok && !all_old && !obs.files.is_empty() {
